@@ -224,7 +224,40 @@ func genReplay(g *vh.Gen) (string, string) {
 	return s.line(n)
 }
 
+// closeUnderLoad: listener 0 is never drained; its queue (100) fills, the hub waits for it holding one
+// more event, and the op queue (100) fills behind it. THEN listener 0 is closed with everything still
+// buffered. The hub must go on: Sync returns and listener 1 (one mailbox only, so that it never fills)
+// has every event of its mailbox. (Close = close(done) BEFORE RemoveListener: with the order swapped the
+// RemoveListener submission waits for room in the op queue, done is never closed, the hub stays stuck.)
+func genCloseUnderLoad(g *vh.Gen) (string, string) {
+	s := newSc(g)
+	n := g.Intn(3)
+	s.add(fmt.Sprintf("a0:%s:-", g.Pick("1", "2")))
+	s.add("a1:2:" + vh.HS("b"))
+	disp := func(k int) {
+		for i := 0; i < k; i++ {
+			mb := "a"
+			if i%4 == 3 {
+				mb = "b"
+			}
+			s.nextID[mb]++
+			s.add("d:" + vh.HS(mb) + ":" + vh.HS(fmt.Sprint(s.nextID[mb])))
+		}
+	}
+	disp(100) // queue of listener 0 exactly full, nobody waits
+	s.add("s")
+	disp(101) // one in the hub's hand (blocked on listener 0) + a full op queue
+	s.add("c0")
+	s.add("s")
+	disp(3 + g.Intn(5))
+	return s.line(n)
+}
+
 func gen(g *vh.Gen) {
+	for i := 0; i < g.N(2, 40); i++ {
+		n, ops := genCloseUnderLoad(g)
+		g.Emit("hub", n, ops)
+	}
 	for i := 0; i < g.N(1500, 60000); i++ {
 		n, ops := genMixed(g, false)
 		g.Emit("hub", n, ops)
